@@ -34,10 +34,10 @@ private theorem tb_chanMask (W first num i : Nat) (hW : first + num ≤ W) :
   rw [Nat.testBit_mod_two_pow, tb_ones_shl]
   by_cases h1 : first ≤ i <;> by_cases h2 : i < first + num <;> simp [h1, h2] <;> omega
 
-private theorem tb_dynMask (W first num i : Nat) (hW : first + num ≤ W) (hP : first + num ≤ promotedBits num) :
+private theorem tb_dynMask (W first num i : Nat) (hW : first + num ≤ W) :
     (dynMask W first num).testBit i = (decide (first ≤ i) && decide (i < first + num)) := by
   unfold dynMask
-  rw [Nat.testBit_mod_two_pow, Nat.testBit_mod_two_pow, tb_ones_shl]
+  rw [Nat.testBit_mod_two_pow, tb_ones_shl]
   by_cases h1 : first ≤ i <;> by_cases h2 : i < first + num <;> simp [h1, h2] <;> omega
 
 private theorem tb_shifted (first num v i : Nat) (hv : v < 2 ^ num) :
@@ -45,12 +45,6 @@ private theorem tb_shifted (first num v i : Nat) (hv : v < 2 ^ num) :
   rw [Nat.testBit_shiftLeft]
   by_cases h1 : first ≤ i <;> by_cases h2 : i < first + num <;> simp [h1, h2]
   exact tb_high hv (by omega)
-
-private theorem tb_shiftedP (P first num v i : Nat) (hv : v < 2 ^ num) (hP : first + num ≤ P) :
-    ((v <<< first) % 2 ^ P).testBit i = (decide (first ≤ i ∧ i < first + num) && v.testBit (i - first)) := by
-  rw [Nat.testBit_mod_two_pow, tb_shifted first num v i hv]
-  by_cases h1 : first ≤ i <;> by_cases h2 : i < first + num <;> simp [h1, h2]
-  intro _; omega
 
 private theorem tb_setWith (W mask f s i : Nat) (hm : mask < 2 ^ W) :
     (setWith W mask f s).testBit i = (decide (i < W) && ((f.testBit i && !mask.testBit i) || s.testBit i)) := by
@@ -210,25 +204,23 @@ theorem C08_unguarded_witness : getF 8 (setF 8 0 0 2 4) 2 3 = 1 ∧ getF 8 0 2 3
 
 /-! ### run-time first bit: `packed_dynamic_channel_reference` on one field value -/
 
-theorem C08_dyn_get_closed (W f first num : Nat) (hW : first + num ≤ W) (hP : first + num ≤ promotedBits num) (hn : num ≤ 64) :
+theorem C08_dyn_get_closed (W f first num : Nat) (hW : first + num ≤ W) (hn : num ≤ 64) :
     getD W f first num = (f >>> first) % 2 ^ num :=
-  get_core _ f first num hn (fun i => tb_dynMask W first num i hW hP)
+  get_core _ f first num hn (fun i => tb_dynMask W first num i hW)
 
-theorem C08_dyn_set_bits (W f first num v i : Nat) (hW : first + num ≤ W) (hP : first + num ≤ promotedBits num) (hv : v < 2 ^ num) :
+theorem C08_dyn_set_bits (W f first num v i : Nat) (hW : first + num ≤ W) (hv : v < 2 ^ num) :
     (setD W f first num v).testBit i =
       if first ≤ i ∧ i < first + num then v.testBit (i - first) else (decide (i < W) && f.testBit i) := by
   unfold setD
   exact set_core _ _ _ _ _ _ _ _ (by unfold dynMask; exact Nat.mod_lt _ (Nat.two_pow_pos W)) hW
-    (tb_dynMask _ _ _ _ hW hP) (tb_shiftedP _ _ _ _ _ hv hP)
+    (tb_dynMask _ _ _ _ hW) (tb_shifted _ _ _ _ hv)
 
-/-- the promotion guard is automatically met by every channel the property quantifies over
-    (widths up to 16 bits, first bit 0..7) -/
-theorem C08_promotion_guard (first num : Nat) (hf : first ≤ 7) (hn : num ≤ 25) : first + num ≤ promotedBits num := by
-  unfold promotedBits; split <;> omega
+/-- a 32-bit channel at run-time first bit 4 of a 64-bit field is stored and read back whole ... -/
+theorem C08_dyn_wide_channel : getD 64 (setD 64 0 4 32 0xFFFFFFFF) 4 32 = 0xFFFFFFFF := by decide
 
-/-- outside the property's quantifier (widths 1..16), kept visible: a 32-bit channel at a non-zero run-time
-    first bit loses its top bits, because `value << _first_bit` is evaluated in 32-bit `integer_t` -/
-theorem C08_dyn_wide_channel_witness : getD 64 (setD 64 0 4 32 0xFFFFFFFF) 4 32 = 0x0FFFFFFF := by decide
+/-- ... which the code before fix 69c04b8 did not do (mask and value were shifted in the 32-bit `integer_t`):
+    the FIXED finding C08-dynamic-reference-wide-channel-shift, witness replayed by the `xdop` ops -/
+theorem C08_prefix_wide_channel_witness : getDPrefix 64 (setDPrefix 64 0 4 32 0xFFFFFFFF) 4 32 = 0x0FFFFFFF := by decide
 
 /-! ### memory: references at a byte address of a buffer of any length -/
 
@@ -257,14 +249,14 @@ theorem C08_sset_bits (fb M ptr first num v i : Nat) (hW : first + num ≤ 8 * f
 
 /-- run-time first-bit reference (channels of bit-aligned pixels): the same characterisation, although only
     `data_size()` bytes are read and written -/
-theorem C08_dset_bits (fb M ptr first num v i : Nat) (hW : first + num ≤ 8 * fb) (hP : first + num ≤ promotedBits num)
+theorem C08_dset_bits (fb M ptr first num v i : Nat) (hW : first + num ≤ 8 * fb)
     (hv : v < 2 ^ num) (hs : first + num + 7 < 4294967296) :
     (dSet fb M ptr first num v).testBit i =
       if 8 * ptr + first ≤ i ∧ i < 8 * ptr + first + num then v.testBit (i - (8 * ptr + first)) else M.testBit i := by
   unfold dSet
   have hd := C08_data_size first num fb hs
   exact mem_core (8 * fb) M ptr (dataSize first num fb) first num v i (fun f => setD (8 * fb) f first num v)
-    (hd.2.2 hW) (by omega) (fun f j => C08_dyn_set_bits _ f _ _ _ j hW hP hv)
+    (hd.2.2 hW) (by omega) (fun f j => C08_dyn_set_bits _ f _ _ _ j hW hv)
 
 /-- reading through either reference = the bit slice of the buffer at the channel's position -/
 theorem C08_sget (fb M ptr first num : Nat) (hW : first + num ≤ 8 * fb) (hn : num ≤ 64) :
@@ -279,12 +271,12 @@ theorem C08_sget (fb M ptr first num : Nat) (hW : first + num ≤ 8 * fb) (hn : 
     simp [h, a, e]
   · simp [h]
 
-theorem C08_dget (fb M ptr first num : Nat) (hW : first + num ≤ 8 * fb) (hP : first + num ≤ promotedBits num)
+theorem C08_dget (fb M ptr first num : Nat) (hW : first + num ≤ 8 * fb)
     (hn : num ≤ 64) (hs : first + num + 7 < 4294967296) :
     dGet fb M ptr first num = bitsAt M (8 * ptr + first) num := by
   unfold dGet
   have hd := (C08_data_size first num fb hs).2.2 hW
-  rw [C08_dyn_get_closed _ _ _ _ hW hP hn]
+  rw [C08_dyn_get_closed _ _ _ _ hW hn]
   apply Nat.eq_of_testBit_eq; intro i
   rw [Nat.testBit_mod_two_pow, Nat.testBit_shiftRight, tb_readBytes, tb_bitsAt]
   by_cases h : i < num
@@ -330,10 +322,10 @@ theorem C08_sset_wrote (fb M ptr first num v : Nat) (hW : first + num ≤ 8 * fb
     WroteExactly M (sSet fb M ptr first num v) (8 * ptr + first) num v :=
   fun i => C08_sset_bits fb M ptr first num v i hW hv
 
-theorem C08_dset_wrote (fb M ptr first num v : Nat) (hW : first + num ≤ 8 * fb) (hP : first + num ≤ promotedBits num)
+theorem C08_dset_wrote (fb M ptr first num v : Nat) (hW : first + num ≤ 8 * fb)
     (hv : v < 2 ^ num) (hs : first + num + 7 < 4294967296) :
     WroteExactly M (dSet fb M ptr first num v) (8 * ptr + first) num v :=
-  fun i => C08_dset_bits fb M ptr first num v i hW hP hv hs
+  fun i => C08_dset_bits fb M ptr first num v i hW hv hs
 
 /-! ### pixels: channel `k` lives at `sum_k` -/
 
@@ -486,15 +478,13 @@ theorem C08_pixel_assign (W f : Nat) (widths : List Nat) (vals : Nat → Nat) (o
 
 /-! ### bit cursor (generated from bit_aligned_pixel_reference.hpp) and the bit-aligned iterator -/
 
-/-- `bit_advance`: position (in bits) moves by exactly `n` and the offset is renormalised to 0..7 --
-    provided `_bit_offset + n` fits the `int` the code narrows it to -/
-theorem C08_adv_pos (byte off n : Int) (hlo : -2147483648 ≤ off + n) (hhi : off + n < 2147483648) :
+/-- `bit_advance`: the position (in bits) moves by exactly `n` and the offset is renormalised to 0..7, for EVERY `n`
+    (since fix 30b4cc6 the sum is no longer narrowed to `int`) -/
+theorem C08_adv_pos (byte off n : Int) :
     8 * (bit_advance byte off n).1 + (bit_advance byte off n).2 = 8 * byte + off + n
     ∧ 0 ≤ (bit_advance byte off n).2 ∧ (bit_advance byte off n).2 < 8 := by
   unfold bit_advance
   simp only []
-  have hw : (off + n + 2147483648) % 4294967296 - 2147483648 = off + n := by omega
-  rw [hw]
   generalize hxe : off + n = x at *
   rcases Int.lt_or_le x 0 with hx | hx
   · obtain ⟨y, rfl⟩ : ∃ y, x = -y := ⟨-x, by omega⟩
@@ -504,29 +494,22 @@ theorem C08_adv_pos (byte off n : Int) (hlo : -2147483648 ≤ off + n) (hhi : of
   · simp only [Int.tdiv_eq_ediv_of_nonneg hx, Int.tmod_eq_emod_of_nonneg hx]
     split <;> simp only [] <;> omega
 
-/-- the `int` narrowing in `bit_advance` is real: advancing by 2^32 bits does not move the cursor
-    (outside the property's window of `n`; kept visible, this is why `C08_adv_pos` carries its guard) -/
-theorem C08_adv_narrowing_witness : bit_advance 0 0 4294967296 = (0, 0) := by decide
-
-/-- advancing by `n` and then by `-n` returns to the same byte and bit offset, from any byte, any offset 0..7 -/
-theorem C08_iter_roundtrip (byte off n : Int) (h0 : 0 ≤ off) (h7 : off < 8)
-    (hlo : -2147483640 ≤ n) (hhi : n ≤ 2147483640) :
+/-- advancing by `n` and then by `-n` returns to the same byte and bit offset, from any byte, any offset 0..7, any `n` -/
+theorem C08_iter_roundtrip (byte off n : Int) (h0 : 0 ≤ off) (h7 : off < 8) :
     bit_advance (bit_advance byte off n).1 (bit_advance byte off n).2 (-n) = (byte, off) := by
-  obtain ⟨p1, l1, u1⟩ := C08_adv_pos byte off n (by omega) (by omega)
+  obtain ⟨p1, l1, u1⟩ := C08_adv_pos byte off n
   generalize bit_advance byte off n = r at *
-  obtain ⟨p2, l2, u2⟩ := C08_adv_pos r.1 r.2 (-n) (by omega) (by omega)
+  obtain ⟨p2, l2, u2⟩ := C08_adv_pos r.1 r.2 (-n)
   generalize bit_advance r.1 r.2 (-n) = q at *
   obtain ⟨q1, q2⟩ := q
   simp only [] at *
   congr 1 <;> omega
 
 /-- `operator++` (its own formula in the header) agrees with `bit_advance(RangeSize)` -/
-theorem C08_inc_eq_adv (byte off rs : Int) (h0 : 0 ≤ off) (hrs : 0 ≤ rs) (hhi : off + rs < 2147483648) :
+theorem C08_inc_eq_adv (byte off rs : Int) (h0 : 0 ≤ off) (hrs : 0 ≤ rs) :
     bit_inc byte off rs = bit_advance byte off rs := by
   unfold bit_inc bit_advance
   simp only []
-  have hw : (off + rs + 2147483648) % 4294967296 - 2147483648 = off + rs := by omega
-  rw [hw]
   have hx : 0 ≤ off + rs := by omega
   generalize off + rs = x at *
   simp only [Int.tdiv_eq_ediv_of_nonneg hx, Int.tmod_eq_emod_of_nonneg hx]
@@ -537,14 +520,13 @@ theorem C08_bit_distance (ab ao bb bo : Int) : bit_distance_to ab ao bb bo = (8 
   unfold bit_distance_to; omega
 
 /-- iterator: `it + d` is `d` pixels away (`distance_to` returns `d`), it sits `d * bit_size` bits further,
-    and `(it + d) - d = it`; for every pixel size, from any byte and bit offset 0..7 -/
-theorem C08_iter_distance (bs : Nat) (c : Cur) (d : Int) (hbs : 0 < bs) (h0 : 0 ≤ c.off) (h7 : c.off < 8)
-    (hlo : -2147483640 ≤ d * bs) (hhi : d * bs ≤ 2147483640) :
+    and `(it + d) - d = it`; for every pixel size, every `d`, from any byte and bit offset 0..7 -/
+theorem C08_iter_distance (bs : Nat) (c : Cur) (d : Int) (hbs : 0 < bs) (h0 : 0 ≤ c.off) (h7 : c.off < 8) :
     itDistance bs c (itAdvance bs c d) = d
     ∧ (itAdvance bs c d).pos = c.pos + d * bs
     ∧ itAdvance bs (itAdvance bs c d) (-d) = c := by
-  obtain ⟨p1, l1, u1⟩ := C08_adv_pos c.byte c.off (d * bs) (by omega) (by omega)
-  have hrt := C08_iter_roundtrip c.byte c.off (d * bs) h0 h7 hlo hhi
+  obtain ⟨p1, l1, u1⟩ := C08_adv_pos c.byte c.off (d * bs)
+  have hrt := C08_iter_roundtrip c.byte c.off (d * bs) h0 h7
   refine ⟨?_, ?_, ?_⟩
   · unfold itDistance Cur.dist itAdvance Cur.adv
     simp only []
@@ -559,13 +541,13 @@ theorem C08_iter_distance (bs : Nat) (c : Cur) (d : Int) (hbs : 0 < bs) (h0 : 0 
     rw [e, hrt]
 
 /-- `--it` undoes `++it` and both move by one pixel -/
-theorem C08_iter_inc_dec (bs : Nat) (c : Cur) (h0 : 0 ≤ c.off) (h7 : c.off < 8) (hbs : (bs : Int) ≤ 2147483640) :
+theorem C08_iter_inc_dec (bs : Nat) (c : Cur) (h0 : 0 ≤ c.off) (h7 : c.off < 8) :
     (itInc bs c).pos = c.pos + bs ∧ itDec bs (itInc bs c) = c := by
   have hinc : itInc bs c = c.adv bs := by
     unfold itInc Cur.inc Cur.adv
-    rw [C08_inc_eq_adv c.byte c.off bs h0 (by omega) (by omega)]
-  obtain ⟨p1, l1, u1⟩ := C08_adv_pos c.byte c.off bs (by omega) (by omega)
-  have hrt := C08_iter_roundtrip c.byte c.off bs h0 h7 (by omega) hbs
+    rw [C08_inc_eq_adv c.byte c.off bs h0 (by omega)]
+  obtain ⟨p1, l1, u1⟩ := C08_adv_pos c.byte c.off bs
+  have hrt := C08_iter_roundtrip c.byte c.off bs h0 h7
   rw [hinc]
   refine ⟨?_, ?_⟩
   · unfold Cur.adv Cur.pos; simp only []; omega
@@ -573,11 +555,10 @@ theorem C08_iter_inc_dec (bs : Nat) (c : Cur) (h0 : 0 ≤ c.off) (h7 : c.off < 8
 
 /-! ### bit-aligned pixel reference: channel `k` at cursor + `sum_k` -/
 
-private theorem chan_pos (c : Cur) (widths : List Nat) (k : Nat) (hb : 0 ≤ c.byte) (h0 : 0 ≤ c.off) (h7 : c.off < 8)
-    (hs : (sumK widths k : Int) < 2147483640) :
+private theorem chan_pos (c : Cur) (widths : List Nat) (k : Nat) (hb : 0 ≤ c.byte) (h0 : 0 ≤ c.off) (h7 : c.off < 8) :
     8 * (baChan c widths k).byte.toNat + (baChan c widths k).off.toNat = c.pos.toNat + sumK widths k
     ∧ (baChan c widths k).off.toNat ≤ 7 := by
-  obtain ⟨p1, l1, u1⟩ := C08_adv_pos c.byte c.off (sumK widths k) (by omega) (by omega)
+  obtain ⟨p1, l1, u1⟩ := C08_adv_pos c.byte c.off (sumK widths k)
   unfold baChan Cur.adv Cur.pos
   simp only []
   generalize bit_advance c.byte c.off (sumK widths k) = r at *
@@ -587,33 +568,33 @@ private theorem chan_pos (c : Cur) (widths : List Nat) (k : Nat) (hb : 0 ≤ c.b
     `[pos + sum_k, pos + sum_k + width k)` of the buffer change, and they hold `v` afterwards -/
 theorem C08_ba_set_wrote (fb M : Nat) (c : Cur) (widths : List Nat) (k v : Nat)
     (hb : 0 ≤ c.byte) (h0 : 0 ≤ c.off) (h7 : c.off < 8) (hk : k < widths.length)
-    (hfield : bitSize widths + 7 ≤ 8 * fb) (hsmall : bitSize widths < 2147483640)
-    (hw : width widths k ≤ 25) (hv : v < 2 ^ width widths k) :
+    (hfield : bitSize widths + 7 ≤ 8 * fb)
+    (hw : width widths k ≤ 64) (hv : v < 2 ^ width widths k) :
     WroteExactly M (baSet fb M c widths k v) (c.pos.toNat + sumK widths k) (width widths k) v := by
   have hwin := sumK_window_le widths k hk
-  obtain ⟨hp, ho⟩ := chan_pos c widths k hb h0 h7 (by omega)
+  obtain ⟨hp, ho⟩ := chan_pos c widths k hb h0 h7
   unfold baSet
   simp only []
   rw [← hp]
-  exact C08_dset_wrote fb M _ _ _ v (by omega) (C08_promotion_guard _ _ ho hw) hv (by omega)
+  exact C08_dset_wrote fb M _ _ _ v (by omega) hv (by omega)
 
 theorem C08_ba_get (fb M : Nat) (c : Cur) (widths : List Nat) (k : Nat)
     (hb : 0 ≤ c.byte) (h0 : 0 ≤ c.off) (h7 : c.off < 8) (hk : k < widths.length)
-    (hfield : bitSize widths + 7 ≤ 8 * fb) (hsmall : bitSize widths < 2147483640) (hw : width widths k ≤ 25) :
+    (hfield : bitSize widths + 7 ≤ 8 * fb) (hw : width widths k ≤ 64) :
     baGet fb M c widths k = bitsAt M (c.pos.toNat + sumK widths k) (width widths k) := by
   have hwin := sumK_window_le widths k hk
-  obtain ⟨hp, ho⟩ := chan_pos c widths k hb h0 h7 (by omega)
+  obtain ⟨hp, ho⟩ := chan_pos c widths k hb h0 h7
   unfold baGet
   simp only []
   rw [← hp]
-  exact C08_dget fb M _ _ _ (by omega) (C08_promotion_guard _ _ ho hw) (by omega) (by omega)
+  exact C08_dget fb M _ _ _ (by omega) hw (by omega)
 
 /-- whole-pixel assignment through a bit-aligned reference (any visiting order): every visited channel
     holds its value; every bit outside the visited windows -- in particular every bit outside
     `[pos, pos + bit_size)`: the neighbouring pixels and the rest of the buffer -- is unchanged -/
 theorem C08_ba_assign (fb M : Nat) (c : Cur) (widths : List Nat) (vals : Nat → Nat) (order : List Nat)
     (hb : 0 ≤ c.byte) (h0 : 0 ≤ c.off) (h7 : c.off < 8)
-    (hfield : bitSize widths + 7 ≤ 8 * fb) (hsmall : bitSize widths < 2147483640) (hw : ∀ k, width widths k ≤ 25)
+    (hfield : bitSize widths + 7 ≤ 8 * fb) (hw : ∀ k, width widths k ≤ 64)
     (hord : ∀ k ∈ order, k < widths.length ∧ vals k < 2 ^ width widths k) :
     (∀ k ∈ order, baGet fb (baAssign fb M c widths vals order) c widths k = vals k)
     ∧ (∀ i, (∀ k ∈ order, ¬ (c.pos.toNat + sumK widths k ≤ i ∧ i < c.pos.toNat + sumK widths k + width widths k)) →
@@ -622,11 +603,11 @@ theorem C08_ba_assign (fb M : Nat) (c : Cur) (widths : List Nat) (vals : Nat →
           (baAssign fb M c widths vals order).testBit i = M.testBit i) := by
   have core := fold_assign (fun k => c.pos.toNat + sumK widths k) (width widths) (fun M k v => baSet fb M c widths k v)
     (fun _ => True) (fun k => k < widths.length) vals
-    (fun M k v _ hk hv => ⟨C08_ba_set_wrote fb M c widths k v hb h0 h7 hk hfield hsmall (hw k) hv, trivial⟩)
+    (fun M k v _ hk hv => ⟨C08_ba_set_wrote fb M c widths k v hb h0 h7 hk hfield (hw k) hv, trivial⟩)
     (fun j k hj hk hne => by have := (C08_sum_k widths j k hj hk).2.2 hne; omega) order M trivial hord
   unfold baAssign
   refine ⟨fun k hk => ?_, core.2.1, fun i hi => core.2.1 i (fun k hk => ?_)⟩
-  · rw [C08_ba_get fb _ c widths k hb h0 h7 (hord k hk).1 hfield hsmall (hw k)]; exact core.2.2 k hk
+  · rw [C08_ba_get fb _ c widths k hb h0 h7 (hord k hk).1 hfield (hw k)]; exact core.2.2 k hk
   · have := sumK_window_le widths k (hord k hk).1; omega
 
 /-! ### copy, swap and runs through bit-aligned references -/
@@ -636,12 +617,12 @@ private theorem bitsAt_lt (M lo num : Nat) : bitsAt M lo num < 2 ^ num := by
 
 private theorem ba_get' (fb M : Nat) (c : Cur) (widths : List Nat) (k : Nat) (h : RefOK fb c widths) (hk : k < widths.length) :
     baGet fb M c widths k = bitsAt M (c.pos.toNat + sumK widths k) (width widths k) :=
-  C08_ba_get fb M c widths k h.byte h.off0 h.off7 hk h.field h.small (h.w25 k)
+  C08_ba_get fb M c widths k h.byte h.off0 h.off7 hk h.field (h.w64 k)
 
 private theorem ba_set' (fb M : Nat) (c : Cur) (widths : List Nat) (k v : Nat) (h : RefOK fb c widths) (hk : k < widths.length)
     (hv : v < 2 ^ width widths k) :
     WroteExactly M (baSet fb M c widths k v) (c.pos.toNat + sumK widths k) (width widths k) v :=
-  C08_ba_set_wrote fb M c widths k v h.byte h.off0 h.off7 hk h.field h.small (h.w25 k) hv
+  C08_ba_set_wrote fb M c widths k v h.byte h.off0 h.off7 hk h.field (h.w64 k) hv
 
 /-- reading the source while writing the destination: as long as the two pixels do not overlap, `refA = refB`
     is the assignment of B's (initial) channel values -/
@@ -680,7 +661,7 @@ theorem C08_ba_copy (fb M : Nat) (a b : Cur) (widths : List Nat) (order : List N
     exact copy_eq_assign fb a b widths _ ha hb hdis order M hord (fun _ _ => rfl)
   have hv : ∀ k ∈ order, k < widths.length ∧ baGet fb M b widths k < 2 ^ width widths k := fun k hk =>
     ⟨hord k hk, by rw [ba_get' fb M b widths k hb (hord k hk)]; exact bitsAt_lt _ _ _⟩
-  have := C08_ba_assign fb M a widths (fun k => baGet fb M b widths k) order ha.byte ha.off0 ha.off7 ha.field ha.small ha.w25 hv
+  have := C08_ba_assign fb M a widths (fun k => baGet fb M b widths k) order ha.byte ha.off0 ha.off7 ha.field ha.w64 hv
   rw [e]; exact ⟨this.1, this.2.2⟩
 
 /-- `swap(refA, refB)` (`swap_proxy`) of two non-overlapping bit-aligned pixels: the channel values are
@@ -700,7 +681,7 @@ theorem C08_swap (fb M : Nat) (a b : Cur) (widths : List Nat) (order : List Nat)
       = baAssign fb (baCopy fb M a b widths order) b widths (fun k => baGet fb M a widths k) order := by
     unfold baSwap baCopy; rfl
   obtain ⟨s1, _, s3⟩ := C08_ba_assign fb (baCopy fb M a b widths order) b widths (fun k => baGet fb M a widths k) order
-    hb.byte hb.off0 hb.off7 hb.field hb.small hb.w25 hva
+    hb.byte hb.off0 hb.off7 hb.field hb.w64 hva
   rw [hsw]
   refine ⟨fun k hk => ⟨?_, s1 k hk⟩, fun i hia hib => by rw [s3 i hib, c2 i hia]⟩
   -- A's channel after the second assignment = A's channel after the copy (B's windows are disjoint from A's)
@@ -716,7 +697,7 @@ theorem C08_swap (fb M : Nat) (a b : Cur) (widths : List Nat) (order : List Nat)
 /-- `std::fill` / `std::copy` from values through a bit-aligned iterator: pixel `j` of the run holds `ps[j]`,
     nothing outside `[pos, pos + count * bit_size)` changes -/
 theorem C08_write_run (fb : Nat) (widths : List Nat) (order : List Nat) (hfield : bitSize widths + 7 ≤ 8 * fb)
-    (hsmall : bitSize widths < 2147483640) (hw : ∀ k, width widths k ≤ 25) (hord : ∀ k ∈ order, k < widths.length) :
+    (hw : ∀ k, width widths k ≤ 64) (hord : ∀ k ∈ order, k < widths.length) :
     ∀ (ps : List (Nat → Nat)) (M : Nat) (c : Cur), 0 ≤ c.byte → 0 ≤ c.off → c.off < 8 →
       (∀ p ∈ ps, ∀ k ∈ order, p k < 2 ^ width widths k) →
       (∀ j (hj : j < ps.length), ∀ k ∈ order,
@@ -729,12 +710,12 @@ theorem C08_write_run (fb : Nat) (widths : List Nat) (order : List Nat) (hfield 
   | cons p ps ih =>
     intro M c hb h0 h7 hvals
     have hp : ∀ k ∈ order, k < widths.length ∧ p k < 2 ^ width widths k := fun k hk => ⟨hord k hk, hvals p (List.mem_cons_self ..) k hk⟩
-    obtain ⟨a1, _, a3⟩ := C08_ba_assign fb M c widths p order hb h0 h7 hfield hsmall hw hp
-    obtain ⟨ipos, _⟩ := C08_iter_inc_dec (bitSize widths) c h0 h7 (by omega)
+    obtain ⟨a1, _, a3⟩ := C08_ba_assign fb M c widths p order hb h0 h7 hfield hw hp
+    obtain ⟨ipos, _⟩ := C08_iter_inc_dec (bitSize widths) c h0 h7
     have hinc : itInc (bitSize widths) c = c.adv (bitSize widths) := by
       unfold itInc Cur.inc Cur.adv
-      rw [C08_inc_eq_adv c.byte c.off (bitSize widths) h0 (by omega) (by omega)]
-    obtain ⟨p1, l1, u1⟩ := C08_adv_pos c.byte c.off (bitSize widths) (by omega) (by omega)
+      rw [C08_inc_eq_adv c.byte c.off (bitSize widths) h0 (by omega)]
+    obtain ⟨p1, l1, u1⟩ := C08_adv_pos c.byte c.off (bitSize widths)
     have hb' : 0 ≤ (itInc (bitSize widths) c).byte := by rw [hinc]; unfold Cur.adv; simp only []; omega
     have h0' : 0 ≤ (itInc (bitSize widths) c).off := by rw [hinc]; unfold Cur.adv; simp only []; exact l1
     have h7' : (itInc (bitSize widths) c).off < 8 := by rw [hinc]; unfold Cur.adv; simp only []; exact u1
@@ -753,7 +734,7 @@ theorem C08_write_run (fb : Nat) (widths : List Nat) (order : List Nat) (hfield 
         have hk' := hord k hk
         have w1 := sumK_window_le widths k hk'
         simp only [Nat.zero_mul, Nat.add_zero, List.getElem_cons_zero]
-        rw [← a1 k hk, C08_ba_get fb _ c widths k hb h0 h7 hk' hfield hsmall (hw k)]
+        rw [← a1 k hk, C08_ba_get fb _ c widths k hb h0 h7 hk' hfield (hw k)]
         apply Nat.eq_of_testBit_eq; intro i
         rw [tb_bitsAt, tb_bitsAt]
         by_cases hi : i < width widths k
@@ -835,7 +816,9 @@ example : setF 16 0xA5C3 5 6 42 = 0xA543 ∧ getF 16 0xA543 5 6 = 42 ∧ getF 16
 -- a 3-bit channel at run-time first bit 6 of byte 1 of a 4-byte buffer 11 22 33 44 (uint16_t bit field):
 -- straddles bytes 1 and 2; bytes 0 and 3 untouched
 example : dSet 2 0x44332211 1 6 3 5 = 0x44336211 ∧ dGet 2 0x44336211 1 6 3 = 5 := by decide
-example : (5 + 3 ≤ 8 * 2) ∧ (6 + 3 ≤ promotedBits 3) ∧ (5 < 2 ^ 3) := by decide
+example : (6 + 3 ≤ 8 * 2) ∧ (5 < 2 ^ 3) := by decide
+-- the bit cursor moves by 2^32 bits (it did not before fix 30b4cc6: the sum was narrowed to int)
+example : bit_advance 0 3 4294967296 = (536870912, 3) := by decide
 -- bit cursor: from byte 10, offset 5, advance by -13 bits and back
 example : bit_advance 10 5 (-13) = (9, 0) ∧ bit_advance 9 0 13 = (10, 5) := by decide
 -- proxy arithmetic on a 3-bit channel: 0 - 1 = 7 (mod 8), 6 * 3 = 2 (mod 8)
@@ -845,9 +828,9 @@ example : baChan ⟨1, 6⟩ [2, 3, 2] 1 = ⟨2, 0⟩ ∧ baSet 2 0 ⟨1, 6⟩ [2
 -- two adjacent rgb 2-2-2 pixels (uint16_t field) at bits 6 and 12 of a buffer: the hypotheses of C08_swap hold, and it swaps
 example : RefOK 2 ⟨0, 6⟩ [2, 2, 2] ∧ RefOK 2 ⟨1, 4⟩ [2, 2, 2]
     ∧ ((⟨0, 6⟩ : Cur).pos.toNat + bitSize [2, 2, 2] ≤ (⟨1, 4⟩ : Cur).pos.toNat) :=
-  ⟨⟨by decide, by decide, by decide, by decide, by decide, fun k => by
+  ⟨⟨by decide, by decide, by decide, by decide, fun k => by
       unfold width; rcases k with _ | _ | _ | _ | k <;> simp [List.getD]⟩,
-   ⟨by decide, by decide, by decide, by decide, by decide, fun k => by
+   ⟨by decide, by decide, by decide, by decide, fun k => by
       unfold width; rcases k with _ | _ | _ | _ | k <;> simp [List.getD]⟩, by decide⟩
 example : baSwap 2 0x123E41 ⟨0, 6⟩ ⟨1, 4⟩ [2, 2, 2] [0, 1, 2] = 0x1398C1 := by decide
 
